@@ -10,8 +10,9 @@ class Deadlock(Exception):
 
 
 class Scheduler(object):
-    def __init__(self, choices, trace_files=()):
+    def __init__(self, choices, trace_files=(), policy=None):
         self.choices = list(choices)
+        self.policy = policy
         self.ci = 0
         self.cv = threading.Condition()
         self.current = None            # tid allowed to run
@@ -86,8 +87,10 @@ class Scheduler(object):
     def _ready(self):
         return sorted(t for t, s in self.state.items() if s == "ready")
 
-    def _pick(self, cur):
-        """Choose the next thread to run. cur: the running thread (may stay) or None."""
+    def _pick(self, cur, what=""):
+        """Choose the next thread to run. cur: the running thread (may stay) or None.
+        With a policy (dict kind -> percentage) a choice value below the percentage of the yield
+        point's kind means 'switch'; without one, any non-zero choice switches."""
         ready = self._ready()
         if not ready:
             if any(s == "blocked" for s in self.state.values()):
@@ -98,9 +101,14 @@ class Scheduler(object):
                 return cur
             c = self.choices[self.ci]
             self.ci += 1
+            others = [t for t in ready if t != cur]
+            if self.policy is not None:
+                kind = what.split(":", 1)[0]
+                if c % 100 < self.policy.get(kind, self.policy.get("call", 0)):
+                    return others[(c // 100) % len(others)]
+                return cur
             if c == 0:
                 return cur
-            others = [t for t in ready if t != cur]
             return others[(c - 1) % len(others)]
         if self.ci < len(self.choices) and len(ready) > 1:
             c = self.choices[self.ci]
@@ -114,7 +122,7 @@ class Scheduler(object):
             return
         with self.cv:
             self.yield_points += 1
-            nxt = self._pick(tid)
+            nxt = self._pick(tid, what)
             if nxt != tid:
                 self._switch(tid, nxt, what)
 
